@@ -361,6 +361,9 @@ class DescriptorTransaction(_TransactionBase):
                     del updates_dict[key]
                 updates = self._handle_state_updates(updates_dict)
                 dest_list.extend(updates)
+            # a descriptor can be updated more than once (update plus version increment as parent of a created or
+            # deleted child): report only the final one, otherwise the report contains outdated descriptor data.
+            proc.descr_updated = list({descr.Handle: descr for descr in proc.descr_updated}.values())
         return proc
 
     def _update_corresponding_state(self, descriptor_container: AbstractDescriptorProtocol):
